@@ -207,7 +207,8 @@ Definition run_C05w (s : sexp) : sexp :=
       | Some ms', Some o =>
           let st := wf_prog top ms' o in
           match py_import ms' o [] with
-          | POk pt => SList [SStr "ok"; of_bool st; of_bool (wf_run ms' pt); of_bool (agreeb top (griffe_sched top ms' o) pt)]
+          | POk pt => SList [SStr "ok"; of_bool st; of_bool (wf_run ms' pt); of_bool (agreeb top (griffe_sched top ms' o) pt);
+                             of_bool (stars_keep_children ms' pt); of_bool (submodules_recorded ms' pt); of_bool (sources_not_rebound ms' pt)]
           | PErr e => SList [SStr "err"; of_bool st; SStr e]
           end
       | _, _ => bad_input
